@@ -42,6 +42,22 @@ def build_harness():
     return time.time() - t0
 
 
+RQCOW2 = os.path.join(HARNESS, "target", "repo", "debug", "rqcow2")
+
+
+def build_cli():
+    """build /repo's rqcow2 binary from the current working tree (no hooks)"""
+    env = dict(os.environ, CARGO_NET_OFFLINE="true")
+    env.pop("RUSTFLAGS", None)
+    p = subprocess.run(["cargo", "build", "--offline", "--quiet", "--bin", "rqcow2", "--manifest-path", "/repo/Cargo.toml",
+                        "--target-dir", os.path.join(HARNESS, "target", "repo")], env=env, cwd="/repo",
+                       stdout=subprocess.PIPE, stderr=subprocess.STDOUT, text=True)
+    if p.returncode != 0:
+        log(p.stdout[-3000:])
+        raise ToolError("rqcow2 build failed")
+    return RQCOW2
+
+
 def workdir(prop):
     d = os.path.join(VERIF, "work", prop)
     shutil.rmtree(d, ignore_errors=True)
@@ -91,7 +107,7 @@ def run_tlc(tp, dp, wd, tag, mode="", known="", cfg="Qcow2Env.cfg", spec="Qcow2E
     if os.path.getsize(dp) == 0:
         # Json module cannot read an empty file: keep one dummy definition
         with open(dp, "w") as f:
-            f.write(json.dumps({"e": "Meta", "id": 1, "p": {"n": 0}, "r": {"n": 0}, "rk": []}) + "\n")
+            f.write(json.dumps({"e": "Meta", "id": 1, "p": {"n": 0}, "r": {"n": 0}, "rk": [], "pk": []}) + "\n")
     env = dict(os.environ, TRACE=tp, DEFS=dp, MODE=mode, KNOWN=known, JAVA_TOOL_OPTIONS=JAVA_OPTS)
     md = os.path.join(wd, f"states_{tag}")
     cmd = ["tlc", "-workers", "1", "-metadir", md, "-cleanup", "-noGenerateSpecTE",
